@@ -275,6 +275,12 @@ func c19Normalize(groups [][]c19Step) [][]c19Step {
 				}
 				live[st.S] = true
 				st.M, st.How = nil, ""
+			case "dead":
+				// a session whose context is already cancelled when ServeNostr is called
+				if live[st.S] {
+					continue
+				}
+				st.M, st.How = nil, ""
 			case "end":
 				if !live[st.S] {
 					continue
@@ -398,6 +404,36 @@ func c19RunT(c *c19Case, limit time.Duration) {
 			case e := <-s.done:
 				s.done <- e
 				return fmt.Errorf("session %d ended before its handler started: %v", st.S, e)
+			case <-tmo:
+				return errC19Timeout
+			}
+		case "dead":
+			ctx, cancel := context.WithCancel(context.Background())
+			cancel()
+			s := &c19Sess{
+				cancel:   cancel,
+				recv:     make(chan mocrelay.ClientMsg),
+				send:     make(chan mocrelay.ServerMsg, 64),
+				cmd:      make(chan mocrelay.ServerMsg),
+				quit:     make(chan struct{}),
+				started:  make(chan struct{}),
+				innerGot: make(chan mocrelay.ClientMsg, 64),
+				done:     make(chan error, 1),
+			}
+			s.ctx = context.WithValue(ctx, c19SessKey{}, s)
+			mu.Lock()
+			seen[st.S] = true
+			mu.Unlock()
+			go func() {
+				defer func() {
+					if r := recover(); r != nil {
+						s.done <- fmt.Errorf("panic: %v", r)
+					}
+				}()
+				s.done <- h.ServeNostr(s.ctx, s.send, s.recv)
+			}()
+			select {
+			case <-s.done:
 			case <-tmo:
 				return errC19Timeout
 			}
@@ -609,6 +645,11 @@ func c19Gen(r *common.Rand, thorough bool) [][]c19Step {
 			}
 		}
 		p := r.Intn(100)
+		if r.Chance(3) && next < maxSess {
+			s := next
+			next++
+			return c19Step{Op: "dead", S: s}, true
+		}
 		if len(live) == 0 || (p < 12 && next < maxSess) {
 			if next >= maxSess {
 				return c19Step{}, false
